@@ -6,6 +6,7 @@ CONSTANTS
   MaxPkts = @@PKTS@@
   MaxLen = @@LEN@@
   BodyClasses = {"any"}
+  Flags = {"none", "enc", "zpre"}
   MaxStall = 1
   Chunking = "all"
   Dev = {}
